@@ -8,3 +8,4 @@ import contracts.positions  # noqa
 INFO = {'not_decided': ['reads of comprehension variables / except-clause names after their construct (outside the domain)'],
         'stated_lemmas': ['composition lemma (DESIGN 2.2)'], 'trusted': []}
 import contracts.composition  # noqa
+import props._all  # noqa
